@@ -5,19 +5,28 @@
              linearization order the harness found; validated here by Lin.valid_linearization,
      CRace : logins started concurrently through authSessionHandler.Activated; the observed outcome
              must be the outcome of SOME schedule of the model's login threads (Conc.all_schedules).
-   The model is run in four variants: spec (what the property demands), today's unconditional
-   unregister only (finding 1), today's lock leak only (finding 2), both. *)
+     CKick : kick-existing mode, 3 or 4 sessions of ONE UUID: the observed log of registrations and
+             DisconnectEvents (exact when the interleaving was forced) and the state at quiescence;
+             judged by the property's own predicate on the log (Model.order_ok, linked to the theorem
+             by Proofs.C11.order_ok_sound) and on the quiescent state.
+   The model is run as impl_cfg = spec_cfg (the code as it is now).  The pre-fix variants (findings
+   C11-1, C11-2, fixed in /repo) are NOT accepted any more: a recurrence is a violation. *)
 From Coq Require Import List NArith ZArith Bool String.
 From Verif Require Import Base.Verdict Base.Conc Base.Lin Model.PlayerRegistry.
 Import ListNotations.
 Open Scope N_scope.
 Open Scope list_scope.
 
+(* observed in a kick-existing run: registerConnection(h) returned true / DisconnectEvent for h *)
+Inductive kev := KReg (h : N) | KTear (h : N) (st : status).
+
 Inductive case :=
 | CSeq (on kk : bool) (pool : list (string * N)) (hist : list (op * out))
 | CLin (on : bool) (pool : list (string * N)) (h : list (call op out)) (order : list nat) (hung : bool)
 | CRace (on kk : bool) (pool : list (string * N)) (pre : list N) (logins : list N)
-        (results : list res) (final : res).
+        (results : list res) (final : res)
+| CKick (on : bool) (pool : list (string * N)) (exact : bool) (log : list kev)
+        (live : list N) (final : res).
 
 (* ---------- pools ---------- *)
 
@@ -40,12 +49,8 @@ Fixpoint dedupS (l : list string) : list string :=
 Definition idpool (pool : list (string * N)) : list N := dedupN (map snd pool).
 Definition namepool (pool : list (string * N)) : list string := dedupS (map (fun x => lower (fst x)) pool).
 
-(* the four variants with the verdict a match produces *)
-Definition variants (on kk : bool) : list (cfg * verdict) :=
-  [ (spec_cfg on kk, VOk);
-    (mkC on kk true false, VKnown 1);
-    (mkC on kk false true, VKnown 2);
-    (impl_cfg on kk, VKnown 1) ].
+(* the only accepted behaviour: the code as it is now (= the specification) *)
+Definition variants (on kk : bool) : list (cfg * verdict) := [ (impl_cfg on kk, VOk) ].
 
 Fixpoint first_match (f : cfg -> bool) (vs : list (cfg * verdict)) : option verdict :=
   match vs with
@@ -189,6 +194,47 @@ Definition holds_race (kk : bool) (pl : list player) (idp : list N) (nmp : list 
   forallb (fun r => negb (res_eqb r RHang)) (final :: results)
   && snap_ok kk pl idp nmp (if kk then [] else pre) final.
 
+(* ---------- kick-existing races ---------- *)
+
+Definition kev_event (pl : list player) (e : kev) : event :=
+  let dflt := mkP 0 "" 0 in
+  match e with
+  | KReg h => EvReg (nth (N.to_nat h) pl dflt)
+  | KTear h st => EvTeardown (nth (N.to_nat h) pl dflt) st
+  end.
+
+Fixpoint nodupN (l : list N) : bool :=
+  match l with
+  | [] => true
+  | x :: r => negb (existsb (N.eqb x) r) && nodupN r
+  end.
+
+(* at quiescence: every live session is the registered one of its UUID (so at most one live session
+   per UUID), every registered player is live, and the lookups are consistent *)
+Definition quiesce_ok (pl : list player) (idp : list N) (nmp : list string) (live : list N) (final : res) : bool :=
+  match final with
+  | RSnap byid _ _ _ =>
+      snap_ok true pl idp nmp live final
+      && forallb (fun h => existsb (N.eqb h) live) (somes byid)
+      && nodupN (map (fun h => p_id (nth (N.to_nat h) pl (mkP 0 "" 0))) live)
+  | _ => false
+  end.
+
+(* an exact log must also be a trace of the model: a registration only happens under a free UUID
+   (the re-check of the kick loop), a teardown is the conditional unregister; final states agree *)
+Fixpoint replay_log (c : cfg) (pl : list player) (s : state) (log : list kev) : option state :=
+  match log with
+  | [] => Some s
+  | KReg h :: r =>
+      let p := nth (N.to_nat h) pl (mkP 0 "" 0) in
+      match get_id (p_id p) s with
+      | None => replay_log c pl (insert p s) r
+      | Some _ => None
+      end
+  | KTear h _ :: r =>
+      replay_log c pl (fst (unregister c (nth (N.to_nat h) pl (mkP 0 "" 0)) s)) r
+  end.
+
 (* ---------- the judge ---------- *)
 
 Definition judge (c : case) : verdict :=
@@ -221,4 +267,17 @@ Definition judge (c : case) : verdict :=
       | Some v => v
       | None => if ok then VMismatch else VViolation
       end
+  | CKick on pool exact log live final =>
+      let pl := mk_pool 0 pool in
+      let idp := idpool pool in
+      let nmp := namepool pool in
+      let c := impl_cfg on true in
+      if (negb exact || order_ok [] (map (kev_event pl) log)) && quiesce_ok pl idp nmp live final
+      then (if exact
+            then match replay_log c pl init log with
+                 | Some s => if res_eqb (fst (snd (step c pl idp nmp 0 s OSnap))) final then VOk else VMismatch
+                 | None => VMismatch
+                 end
+            else VOk)
+      else VViolation
   end.
